@@ -37,6 +37,8 @@ type c17Fix struct {
 	k1      *fixtures.Key
 	flat    *c15Emb1
 	flatEnc []byte
+	evText  *psatoken.Evidence // decoded from a token whose protected header gives alg as the text "ES256"
+	wide    [2][]byte          // two profile-1 claims-sets of the same size with an unsigned key above MaxInt64
 }
 
 func newC17Fix() *c17Fix {
@@ -75,6 +77,35 @@ func newC17Fix() *c17Fix {
 	if _, err := f.evSign.Sign(f.k1.Signer()); err != nil {
 		panic(err)
 	}
+	// a profile-2 claims-set whose component container never held an entry (decoded from a map without key 2399)
+	bare := *cl[3]
+	bare.Comps = nil
+	bareTree := wireTree(&bare, true)
+	for i, p := range bareTree.Pairs {
+		if k, _ := p[0].Int(); k == 2399 {
+			bareTree.Pairs = append(bareTree.Pairs[:i:i], bareTree.Pairs[i+1:]...)
+			break
+		}
+	}
+	f.claims = append(f.claims, must(psatoken.DecodeClaimsFromCBOR(mcbor.Encode(bareTree))))
+	{
+		prot := mcbor.Encode(mcbor.M(mcbor.U(1), mcbor.T("ES256")))
+		v, perr := viewSign1(f.tokP2)
+		if perr != nil {
+			panic(perr)
+		}
+		f.evText = &psatoken.Evidence{}
+		if err := f.evText.UnmarshalCOSE(envelope(prot, mcbor.M(), v.payload, rawSign(f.k1, "ES256", prot, v.payload))); err != nil {
+			panic(err)
+		}
+	}
+	for i := range f.wide {
+		w := *cl[1]
+		w.ClientID = i32p(int32(100 + i))
+		tree := wireTree(&w, true)
+		tree.Pairs = append(tree.Pairs, [2]*mcbor.Node{mcbor.U(1<<63 + 5), mcbor.U(uint64(i))})
+		f.wide[i] = mcbor.Encode(tree)
+	}
 	a, g := int64(5), "g"
 	f.flat = &c15Emb1{c15Flat: c15Flat{A: &a}, G: &g}
 	f.flatEnc, _ = encoding.SerializeStructToCBOR(extEM, f.flat)
@@ -86,7 +117,7 @@ func (f *c17Fix) shared() []any {
 	for _, c := range f.claims {
 		out = append(out, c)
 	}
-	return append(out, f.evDec, f.evSign, f.flat)
+	return append(out, f.evDec, f.evSign, f.flat, f.evText)
 }
 
 type c17Op struct {
@@ -193,6 +224,25 @@ func c17Ops() []c17Op {
 			for _, n := range []string{refmodel.P1Name, refmodel.P2Name, ExtP2Name, "http://unknown.example/p"} {
 				c, err := psatoken.NewClaims(n)
 				fmt.Fprintf(&sb, "%T/%v;", c, err == nil)
+			}
+			return sb.String()
+		}},
+	)
+	// (appended so that the indices above stay what the core sets name)
+	ops = append(ops,
+		c17Op{"Validate(P2-decoded-without-components)", func(f *c17Fix) string { return resErr(f.claims[5].Validate()) }},
+		c17Op{"Getters(P2-decoded-without-components)", func(f *c17Fix) string { return hashS(getterVector(f.claims[5])) }},
+		c17Op{"EncodeCBOR+JSON(P2-decoded-without-components)", func(f *c17Fix) string { return hashS(encObs(f.claims[5])) }},
+		c17Op{"Verify(decoded Evidence, alg given as text)", func(f *c17Fix) string { return fmt.Sprint(f.evText.Verify(f.k1.Pub) == nil) }},
+		c17Op{"DecodeClaimsFromCBOR x2 (private; unsigned key above MaxInt64)", func(f *c17Fix) string {
+			var sb strings.Builder
+			for i := range f.wide {
+				x, err := psatoken.DecodeClaimsFromCBOR(append([]byte{}, f.wide[i]...))
+				if err != nil {
+					sb.WriteString(err.Error())
+					continue
+				}
+				sb.WriteString(hashS(getterVector(x)))
 			}
 			return sb.String()
 		}},
@@ -422,7 +472,7 @@ func c17Worker(r *evid.Run, w, n int) {
 		}
 		return b
 	}
-	dl := deadline(r, 55*time.Second, 25*time.Minute)
+	dl := deadline(r, 100*time.Second, 25*time.Minute)
 	agg := &sched.Stats{Exhaustive: true, Outcomes: map[string]int64{}}
 	done := 0
 	// deal the expensive scenarios (higher bound, more threads) first so that the shards are balanced
